@@ -33,6 +33,28 @@ class GenericPOMDP {
 static_assert(POMDP::IsModel<GenericPOMDP>);
 static_assert(!POMDP::IsModelEigen<GenericPOMDP>);
 
+// A user-defined Eigen model (IsModelEigen) whose matrix accessors return BY VALUE (e.g. computed on request)
+class ByValuePOMDP {
+    public:
+        ByValuePOMDP(const POMDP::Model<MDP::Model> & m) : m_(m) {}
+        size_t getS() const { return m_.getS(); }
+        size_t getA() const { return m_.getA(); }
+        size_t getO() const { return m_.getO(); }
+        double getDiscount() const { return m_.getDiscount(); }
+        bool isTerminal(size_t s) const { return m_.isTerminal(s); }
+        double getTransitionProbability(size_t s, size_t a, size_t s1) const { return m_.getTransitionProbability(s, a, s1); }
+        double getExpectedReward(size_t s, size_t a, size_t s1) const { return m_.getExpectedReward(s, a, s1); }
+        double getObservationProbability(size_t s1, size_t a, size_t o) const { return m_.getObservationProbability(s1, a, o); }
+        std::tuple<size_t, double> sampleSR(size_t s, size_t a) const { return m_.sampleSR(s, a); }
+        std::tuple<size_t, size_t, double> sampleSOR(size_t s, size_t a) const { return m_.sampleSOR(s, a); }
+        Matrix2D getTransitionFunction(size_t a) const { return m_.getTransitionFunction(a); }
+        Matrix2D getObservationFunction(size_t a) const { return m_.getObservationFunction(a); }
+        Matrix2D getRewardFunction() const { return m_.getRewardFunction(); }
+    private:
+        const POMDP::Model<MDP::Model> & m_;
+};
+static_assert(POMDP::IsModelEigen<ByValuePOMDP>);
+
 struct Tables { size_t S, A, O; double g; DumbMatrix3D T, R, Ob; };
 
 static Tables readPomdp(vio::Cursor & c) {
@@ -115,6 +137,7 @@ int main(int argc, char ** argv) {
             POMDP::Model<MDP::Model> dense(t.O, t.Ob, t.S, t.A, t.T, t.R, t.g);
             if (repr == "dense") solve(alg, dense, h, o);
             else if (repr == "generic") { GenericPOMDP g(dense); solve(alg, g, h, o); }
+            else if (repr == "byvalue") { ByValuePOMDP x(dense); solve(alg, x, h, o); }
             else if (repr == "mixed1") { POMDP::Model<MDP::SparseModel> x(dense); solve(alg, x, h, o); }
             else if (repr == "mixed2") { POMDP::SparseModel<MDP::Model> x(dense); solve(alg, x, h, o); }
             else { POMDP::SparseModel<MDP::SparseModel> sp(dense); solve(alg, sp, h, o); }
@@ -135,6 +158,7 @@ int main(int argc, char ** argv) {
             POMDP::Model<MDP::Model> dense(t.O, t.Ob, t.S, t.A, t.T, t.R, t.g);
             if (repr == "dense") runRtbss(dense, maxR, b, h, o);
             else if (repr == "generic") { GenericPOMDP g(dense); runRtbss(g, maxR, b, h, o); }
+            else if (repr == "byvalue") { ByValuePOMDP x(dense); runRtbss(x, maxR, b, h, o); }
             else if (repr == "mixed1") { POMDP::Model<MDP::SparseModel> x(dense); runRtbss(x, maxR, b, h, o); }
             else if (repr == "mixed2") { POMDP::SparseModel<MDP::Model> x(dense); runRtbss(x, maxR, b, h, o); }
             else { POMDP::SparseModel<MDP::SparseModel> sp(dense); runRtbss(sp, maxR, b, h, o); }
